@@ -98,6 +98,7 @@ type Enc struct {
 	addrs         map[ssa.Value]lvalue
 	used          map[string]bool // spec functions used
 	usedTrusted   map[string]bool
+	usedCallees   map[string]bool // non-trusted contracts applied at call sites
 	loops         map[*ssa.BasicBlock]*loopInfo
 	inEdges       map[*ssa.BasicBlock][]edge
 	exits         []edge
@@ -167,7 +168,7 @@ type lvalue struct {
 func NewEnc(w *World, fn *ssa.Function, key string, spec *FuncSpec) *Enc {
 	return &Enc{W: w, fn: fn, key: key, spec: spec, sorts: map[string]string{}, cellT: map[*ssa.Alloc]types.Type{},
 		cellName: map[string][]*ssa.Alloc{}, regs: map[ssa.Value]Val{}, addrs: map[ssa.Value]lvalue{}, used: map[string]bool{},
-		usedTrusted: map[string]bool{}, loops: map[*ssa.BasicBlock]*loopInfo{}, inEdges: map[*ssa.BasicBlock][]edge{},
+		usedTrusted: map[string]bool{}, usedCallees: map[string]bool{}, loops: map[*ssa.BasicBlock]*loopInfo{}, inEdges: map[*ssa.BasicBlock][]edge{},
 		counters: map[string]int{}, iterStr: map[ssa.Value]Val{}, closures: map[ssa.Value]*ssa.MakeClosure{},
 		tupleOf: map[ssa.Value][]Val{}, callOrd: map[string]int{}, freeVars: map[*ssa.FreeVar]lvalue{}, paramVals: map[string]Val{}, usedLemmas: map[string]bool{}, implUsed: map[string]types.Type{}, iterMap: map[ssa.Value]Val{}, closureOf: map[string]*ssa.MakeClosure{}, lateBlocks: map[*ssa.BasicBlock]bool{}, ghostUsed: map[int]bool{}, dynType: map[string]types.Type{}, fieldPtrs: map[string]lvalue{}, monRel: map[string]*State{}, monAcq: map[string]*State{}, unlockSeen: map[string]int{}, genMerge: map[string][]edge{}, shadowParams: map[string]bool{}}
 }
